@@ -222,6 +222,7 @@ def meta_register(chk):
             chk.bad("O3.1", uq.qual, "%d queues but %d re-registrations" % (len(iters), len(regs)), node=uq.node, stmt="flush-count")
             ok = False
             continue
+        swapped = []
         for k, (i, r) in enumerate(regs):
             item = None
             for e in evs:
@@ -244,6 +245,23 @@ def meta_register(chk):
             if dom != ("call", ("attr", QATTR, "items"), (), ()):
                 chk.bad("O3.1", uq.qual, "the flush ranges over %s" % show(item[1]), node=uq.node, stmt="flush-domain")
                 ok = False
+        # a registration can fail (a queued flavour without a runner raises once the runtime is running): what was handed to
+        # a runner before must not stay queued -- each queue is emptied before the next one is registered, or the whole
+        # mapping was swapped out before the loop
+        if len(regs) >= 2 and not swapped:
+            for k, (i, r) in enumerate(regs[:-1]):
+                nxt = regs[k + 1][0]
+                between = [e for e in evs[i + 1 : nxt] if e[0] == "call" and e[1][1][0] == "attr" and e[1][1][2] in ("clear", "pop", "popitem")]
+                if not between:
+                    chk.bad(
+                        "O3.1",
+                        uq.qual,
+                        "a flushed queue is not emptied before the next queue is registered: when that registration fails (a payload queued for a flavour without a runner), the payloads already handed to their runners stay queued and are started a second time by the next run",
+                        node=uq.node,
+                        stmt="flush-clear-deferred",
+                    )
+                    ok = False
+                    break
         cleared = [e for e in evs if e[0] == "call" and e[1][1] == ("attr", ("attr", SELF, slots.queues_map(prog)), "clear")]
         cleared = cleared or [e for e in evs if e[0] == "store" and e[1] == ("attr", SELF, slots.queues_map(prog)) and strip_sites(e[2]) in (("dict", ()), ("call", ("glob", "ext:builtins.dict"), (), ()))]
         if iters and not cleared and not all(any(e[0] == "call" and e[1][1][0] == "attr" and e[1][1][2] == "clear" for e in evs) for _ in [0]):
@@ -603,6 +621,42 @@ def weak_registry(chk):
         chk.bad(rule, cls.qual, "the unit registry %s holds the units strongly (%s): a superseded unit of a live service (one unit per @service decorator in the class hierarchy) stays defined and the service's run method is started once per unit" % (reg, util.unparse(v)), node=v, stmt="registry-strong")
     else:
         chk.undecided(rule, cls.qual, "the unit registry is %s" % util.unparse(v), node=v)
+    # units are defined on ANY thread (creating a service adds its unit) while the sweep copies the registry on the trio
+    # thread: the copy must be one C-level step over the backing set (set(ws.data) / list(...)), never a Python-level
+    # iteration of the WeakSet itself (WeakSet.__iter__ is a generator over self.data: "Set changed size during iteration")
+    if r == "ext:weakref.WeakSet" and units is not None:
+        sites = []  # (function node, alias name or None for the attribute itself)
+        for n in ast.walk(units.node):
+            if isinstance(n, ast.Call) and not n.keywords and len(n.args) == 1 and isinstance(n.args[0], ast.Attribute) and n.args[0].attr == reg and isinstance(n.func, ast.Name):
+                g = prog.functions.get(prog.resolve(units.module, n.func) or "")
+                if g is not None and g.cls is None and g.params():
+                    sites.append((g, g.params()[0]))
+        if not sites:
+            sites.append((units, None))
+        for g, alias in sites:
+            par = util.parents_map(g.node)
+            for n in ast.walk(g.node):
+                hit = (alias is not None and isinstance(n, ast.Name) and n.id == alias and isinstance(n.ctx, ast.Load)) or (alias is None and isinstance(n, ast.Attribute) and n.attr == reg)
+                if not hit:
+                    continue
+                chk.count()
+                up = par.get(id(n))
+                if isinstance(up, ast.Attribute) and up.attr == "data":
+                    up2 = par.get(id(up))
+                    if isinstance(up2, ast.Call) and isinstance(up2.func, ast.Name) and up2.func.id in ("set", "list", "tuple", "frozenset") and up2.args and up2.args[0] is up:
+                        continue
+                    chk.bad(rule, g.qual, "the backing set of the unit registry is iterated at Python level (%s): a unit defined on another thread meanwhile makes the sweep fail with 'Set changed size during iteration'" % util.unparse(up2)[:60], node=n, stmt="registry-data-iterated")
+                    continue
+                iterated = (isinstance(up, (ast.For, ast.comprehension)) and up.iter is n) or (isinstance(up, ast.Call) and n in up.args and isinstance(up.func, ast.Name) and up.func.id in ("set", "list", "tuple", "frozenset", "sorted", "iter", "len", "any", "all")) or (isinstance(up, ast.Attribute) and up.attr in ("copy", "__iter__", "union", "difference"))
+                if iterated:
+                    chk.bad(
+                        rule,
+                        g.qual,
+                        "the unit registry (a WeakSet) is copied by iterating the WeakSet itself (%s): WeakSet.__iter__ walks its backing set in Python code, so a service created on another thread during the copy makes the sweep fail with "
+                        "'Set changed size during iteration' and the runtime goes down; copy the backing set in one step (set(ws.data)) and dereference afterwards" % util.unparse(up if not isinstance(up, ast.comprehension) else n)[:60],
+                        node=n,
+                        stmt="registry-iterated",
+                    )
 
 
 def service_typestate(chk):
